@@ -60,9 +60,15 @@ SIGS = ['1', '2', '3', '0.1', '0.05', '0.3', '7', '0.001', '10', '0.5',
         '2.5', '100', '0.25']
 EDGE = {
     'SQRT': ['0', '-0.0000001', '1e-300', '4', '-1', '1e308'],
-    'LN': ['0', '-1', '1e-300', '1', '2.718281828459045', '1e308'],
-    'LOG10': ['0', '-5', '1e-300', '1', '1000', '1e308'],
-    'LOG': ['0', '-5', '1', '8', '1e308'],
+    'LOG': ['0', '-5', '1', '8', '1e308',
+            # next to (not at) a whole power of the base
+            '1.000000001', '0.999999999', '1000.000001', '999.9999999',
+            '100.00000001', '8.000000001', '1.00000000001', '16.00000001',
+            '0.1000000001', '1024.000001'],
+    'LOG10': ['0', '-5', '1e-300', '1', '1000', '1e308', '1.000000001',
+              '1000.000001', '0.999999999', '99.99999999'],
+    'LN': ['0', '-1', '1e-300', '1', '2.718281828459045', '1e308',
+           '1.000000001', '0.999999999', '2.718281829', '1.00000000001'],
     'EXP': ['709', '709.78', '709.79', '710', '1000', '-745', '-1000', '0'],
     'COSH': ['710', '711', '-711', '0', '1', '1e10'],
     'ASIN': ['1', '-1', '1.0000001', '-1.0000001', '0.5', '2'],
